@@ -20,7 +20,12 @@ def instances(tier):
 
 
 def variants(sc, b):
-    return [('base', sc), ('bytewise', sessprop.reseg(sc, 1)), ('randcuts', sessprop.reseg(sc, 'rand'))]
+    out = [('base', sc), ('bytewise', sessprop.reseg(sc, 1)), ('randcuts', sessprop.reseg(sc, 'rand'))]
+    if sessprop.sampled(sc, b, 5):
+        # the same messages from an RFC 7692 peer on a connection that negotiated permessage-deflate (other parser path: no incremental
+        # UTF-8 validation, RSV1 allowed): complete data messages compressed, same fragmentation, Ping / Pong between fragments kept
+        out.append(('deflate', sessprop.via_deflate(sc, 'rand')))
+    return out
 
 
 def nontrivial(log, sc):
@@ -45,7 +50,7 @@ def run(tier, seed):
     r, results, seen = sessprop.standard_run(
         'C01', tier, seed, sessprop.wrapper('Mon_C01'), 'Mon_C01', instances(tier), KINDS,
         rule='all conforming frame sequences of the bounded server automaton x 3 read segmentations (model chunking, one byte per '
-             'read, seeded random cuts), plus the payload-length grid; non-trivial = distinct frame sequences with a fragmented message',
+             'read, seeded random cuts), every fifth also compressed by an RFC 7692 peer (permessage-deflate negotiated), plus the payload-length grid; non-trivial = distinct frame sequences with a fragmented message',
         nontrivial=nontrivial, need_actions=('Recv', 'FeedNext', 'Chunk', 'CloseEcho'), anchors=anchors, variants=variants, extra=lambda run: c01grid.add(run, tier))
     need = {'text', 'binary', 'ping', 'pong', 'closing', 'control_between_fragments', 'empty_fragment'}
     missing = sorted(need - seen)
